@@ -11,7 +11,7 @@ pub const WORDS: [&str; 5] = ["rust", "fast", "index", "wal", "heap"];
 pub const TAGS: [&str; 4] = ["a", "b", "c", "d"];
 
 /// text `body`; fast+stored keywords `tag` (single) and `tags` (multi); fast+stored i64 `n`, `m`
-/// (multi) and f64 `x`.  Everything is stored so that `Index::compact` accepts the schema.
+/// (multi) and f64 `x`, `y` (multi, with -0.0 and multiples of 0.1).  Everything is stored so that `Index::compact` accepts the schema.
 pub fn schema() -> searchlite_core::Schema {
   serde_json::from_value(json!({
     "doc_id_field": "_id",
@@ -22,7 +22,8 @@ pub fn schema() -> searchlite_core::Schema {
     "numeric_fields": [
       {"name":"n","i64":true,"fast":true,"stored":true},
       {"name":"m","i64":true,"fast":true,"stored":true},
-      {"name":"x","i64":false,"fast":true,"stored":true}],
+      {"name":"x","i64":false,"fast":true,"stored":true},
+      {"name":"y","i64":false,"fast":true,"stored":true}],
     "nested_fields": [],
     "vector_fields": []
   }))
@@ -77,6 +78,14 @@ pub fn gen_doc_fields(rng: &mut Rng) -> Value {
   if !rng.chance(1, 5) {
     let xs = [-1.5, -0.5, 0.0, 0.25, 0.5, 2.0, 1e9];
     d.insert("x".into(), json!(*rng.pick(&xs[..])));
+  }
+  match rng.below(4) {
+    0 => {}
+    k => {
+      let ys = [-0.7, -0.2, -0.0, 0.0, 0.1, 0.3, 0.7, 0.9, 1.1, 1.7, 2.3];
+      let v: Vec<f64> = (0..k).map(|_| *rng.pick(&ys[..])).collect();
+      d.insert("y".into(), json!(v));
+    }
   }
   Value::Object(d)
 }
@@ -207,7 +216,7 @@ pub fn gen_filter(rng: &mut Rng) -> Option<Value> {
   }
 }
 
-pub const SORT_FIELDS: [&str; 6] = ["_score", "tag", "tags", "n", "m", "x"];
+pub const SORT_FIELDS: [&str; 7] = ["_score", "tag", "tags", "n", "m", "x", "y"];
 
 pub fn gen_sort(rng: &mut Rng) -> Vec<Value> {
   let one = |rng: &mut Rng| -> Value {
